@@ -49,7 +49,7 @@ func c26Run(c c26Case) (*eng.Fail, string) {
 		args = c.Args
 	}
 	if c.PTY {
-		res, err := procx.RunPTY(c26Bin, args, 40, 100, "q\n\n", 10*time.Second)
+		res, err := procx.RunPTY(c26Bin, args, 40, 100, "q\n\n", 300*time.Second)
 		if err != nil {
 			return nil, "pty-unavailable"
 		}
@@ -64,7 +64,7 @@ func c26Run(c c26Case) (*eng.Fail, string) {
 		}
 		return &eng.Fail{Sig: "start-up neither UI nor error (pty) " + c.Class, What: fmt.Sprintf("%s: exit %d, output %.300q", c.What, res.Exit, res.Stdout), Case: c}, ""
 	}
-	res := procx.Run(c26Bin, args, 20*time.Second)
+	res := procx.Run(c26Bin, args, 300*time.Second)
 	if cr := res.Crashed(); cr != "" {
 		site := ""
 		for _, l := range strings.Split(res.Stderr, "\n") {
@@ -100,7 +100,7 @@ func c26Seeds() []elfgen.File {
 
 func init() {
 	checks["C26"] = eng.Check{
-		Rule:        "the real mltwist binary (built from the working tree) run as a process with stdin=/dev/null under a 4 GiB address-space limit and a 20 s timeout on: (a) ELF files with RISC-V payloads over {valid code, undecodable word, truncated word, jump outside the code, entry outside the code, no executable section, no loadable segment, overlapping segments} x types; (b) every truncation length and every single-byte substitution {00, ff, ~b} of every header byte (ELF header, program headers, section headers) of two valid seed files; (c) memsz in {2^31, 2^36, 2^62, 2^63, 2^64-1}, filesz > file, section/segment addresses at the top of the address space; (d) argument vectors of length 0, 2, 3, a missing file, a directory, an empty file; plus the two seed files under a pseudo-terminal (UI must be entered and 'q' must exit 0). Oracle: exit status 1 with a 'mltwist: ' message (or UI entered), never a Go panic/fatal error, signal or timeout. Non-trivial = runs ending with the error exit.",
+		Rule:        "the real mltwist binary (built from the working tree) run as a process with stdin=/dev/null under a 4 GiB address-space limit and a 300 s hang guard on: (a) ELF files with RISC-V payloads over {valid code, undecodable word, truncated word, jump outside the code, misaligned jumps into the first / a middle / the last instruction of a block, entry at every 2-byte offset of the code and outside it, no executable section, no loadable segment, overlapping segments} x types; (b) every truncation length and every single-byte substitution {00, ff, ~b} of every header byte (ELF header, program headers, section headers) of two valid seed files; (c) memsz in {2^31, 2^36, 2^62, 2^63, 2^64-1}, filesz > file, section/segment addresses at the top of the address space; (d) argument vectors of length 0, 2, 3, a missing file, a directory, an empty file; plus the two seed files under a pseudo-terminal (UI must be entered and 'q' must exit 0). Oracle: exit status 1 with a 'mltwist: ' message (or UI entered), never a Go panic/fatal error, signal or timeout. Non-trivial = runs ending with the error exit.",
 		Assumptions: []string{"with stdin=/dev/null a file that loads ends in 'cannot get terminal size' (exit 1), which counts as a regular error exit; the pty runs confirm that valid files do enter the UI"},
 		Run: func(r *eng.Run) {
 			dir, err := os.MkdirTemp("", "vc26")
@@ -129,6 +129,9 @@ func init() {
 				"zero":      {0},
 				"jump-out":  {prog.Addi(1, 0, 1), prog.Jal(0, 0x100)},
 				"jump-mid":  {prog.Beq(0, 0, 6), prog.Nop, prog.Nop},
+				"jump-self": {prog.Addi(1, 0, 1), prog.Jal(0, 2)},
+				"jump-last": {prog.Jal(0, 6), prog.Jalr(0, 1, 0)},
+				"jump-back": {prog.Nop, prog.Jalr(0, 1, 0), prog.Beq(1, 2, -2)},
 				"branch-bk": {prog.Bne(1, 2, -8)},
 			}
 			for name, ws := range words {
@@ -136,7 +139,7 @@ func init() {
 				for _, trunc := range []int{0, 1, 2, 3} {
 					code := img[:len(img)-trunc]
 					for _, ty := range []uint16{elfgen.ET_EXEC, elfgen.ET_DYN, elfgen.ET_REL, elfgen.ET_CORE, elfgen.ET_NONE} {
-						for _, entry := range []uint64{0x1000, 0x1002, 0x1004, 0x5000, 0} {
+						for _, entry := range []uint64{0x1000, 0x1002, 0x1004, 0x1006, 0x1008, 0x100a, 0x100c, 0x5000, 0} {
 							f := elfgen.File{Type: ty, Entry: entry,
 								Sections: []elfgen.Section{{Type: elfgen.SHT_PROGBITS, Flags: 6, Addr: 0x1000, Data: code, Size: uint64(len(code))}},
 								Progs:    []elfgen.Prog{{Type: elfgen.PT_LOAD, Vaddr: 0x1000, Data: code, Memsz: uint64(len(code)) + 4}}}
@@ -162,7 +165,7 @@ func init() {
 			ovs.Sections = append(append([]elfgen.Section{}, s0.Sections...), elfgen.Section{Type: elfgen.SHT_PROGBITS, Flags: 6, Addr: 0x1004, Data: prog.Image([]uint32{prog.Nop}), Size: 4})
 			add("overlapping executable sections", "layout", ovs.Bytes())
 			// (c) huge sizes and top-of-address-space
-			for _, ms := range []uint64{1 << 27, 1<<30 + 1, 1 << 36, 1 << 62, 1 << 63, ^uint64(0), ^uint64(0) - 7} {
+			for _, ms := range []uint64{1 << 22, 1<<30 + 1, 1 << 36, 1 << 62, 1 << 63, ^uint64(0), ^uint64(0) - 7} {
 				h := s0
 				h.Progs = []elfgen.Prog{{Type: elfgen.PT_LOAD, Vaddr: 0x1000, Data: s0.Progs[0].Data, Memsz: ms}}
 				add(fmt.Sprintf("memsz=%#x", ms), "huge-memsz", h.Bytes())
